@@ -263,6 +263,27 @@ func checkCmd(args []string) {
 		os.WriteFile(path, b, 0o644)
 		fmt.Printf("VIOLATION property=%s replay=%s obligation=%s (%s) no-failing-input-found\n", prop, path, name, what)
 	}
+	// C10: format constants pinned from the reference snapshot
+	if prop == "C10" {
+		n, bad, err := checkConstants(ld)
+		if err != nil {
+			generatorFailures = append(generatorFailures, "format constants: "+err.Error())
+		}
+		nObl += n
+		nDis += n - len(bad)
+		byBackend["go/types constant evaluation"] += n - len(bad)
+		for _, m := range bad {
+			name := "const:" + m.Name
+			violations++
+			path := filepath.Join(verifDir(), "replay", fmt.Sprintf("%s-%s.json", prop, mangle(name)))
+			rf := map[string]any{"property": prop, "obligation": name, "what": "format constant differs from the value pinned from the reference snapshot",
+				"pinned": m.Want, "found": m.Got, "failing_input": "any stream written by the reference encoder that exercises this constant", "rerun": "cd /verif && ./check C10 quick"}
+			b, _ := json.MarshalIndent(rf, "", " ")
+			os.WriteFile(path, b, 0o644)
+			fmt.Printf("VIOLATION property=%s replay=%s obligation=%s (pinned %.60s, found %.60s) no-failing-input-found\n", prop, path, name, m.Want, m.Got)
+		}
+		funcs = append(funcs, fmt.Sprintf("%d pinned format constants/tables (contracts/format_constants.json)", n))
+	}
 	for _, g := range generatorFailures {
 		report("generator:"+g, "the verification conditions of this function could not be generated: "+g, nil)
 	}
